@@ -2283,6 +2283,7 @@ fn main() {
             "C18" => {}
             "C06" => cfg.prop = "C06".into(),
             "C07" => cfg.prop = "C07".into(),
+            "C02" => cfg.prop = "C02".into(),
             "C16" => cfg.prop = "C16".into(),
             other => {
                 eprintln!("unknown argument {}", other);
@@ -2336,11 +2337,15 @@ fn main() {
         std::fs::write(&path, serde_json::to_string(&vec![r]).unwrap()).expect("cannot write part file");
         std::process::exit(0);
     }
-    if cfg.prop == "C06" || cfg.prop == "C07" {
+    if cfg.prop == "C06" || cfg.prop == "C07" || cfg.prop == "C02" {
         // the concurrent parts of C06 (honest and tampered openers) and C07 (a mismatched receiver next to other key
         // schedules) under every preemption-bounded schedule
         let c06 = cfg.prop == "C06";
-        let part = if c06 {
+        let part = if cfg.prop == "C02" {
+            // whole sessions of different suites side by side: every byte on the wire still R1's
+            let sc: Vec<Scenario> = scenarios(cfg.seed, t).into_iter().filter(|s| s.name.starts_with('Y') || s.name.starts_with('W')).collect();
+            E3b { scen: sc, bounds: if t { vec![0, 1, 2] } else { vec![0, 1] }, stats: Mutex::new(vec![]), label: Some("E3b-sessions-side-by-side") }
+        } else if c06 {
             E3b { scen: tamper_scenarios(cfg.seed, t), bounds: if t { vec![0, 1, 2, 3] } else { vec![0, 1, 2] }, stats: Mutex::new(vec![]), label: Some("E3b-honest-vs-tampered-openers") }
         } else {
             E3b { scen: binding_scenarios(cfg.seed, t), bounds: if t { vec![0, 1, 2] } else { vec![0, 1] }, stats: Mutex::new(vec![]), label: Some("E3b-mismatched-receiver-among-other-key-schedules") }
@@ -2364,7 +2369,7 @@ fn main() {
         let mut c1 = cfg.clone();
         c1.threads = 1;
         let mut r = run_part(&part, &c1);
-        r.rule = if !c06 { "three real threads: a receiver whose setup differs from the sender's in ONE component (info || 00, one psk_id bit, the mode, one psk bit), an unrelated sender setup, and a receiver with exactly the sender's parameters run side by side; under every schedule with at most B preemptions at the in-library scheduling points the mismatched receiver's export equals R1's value for ITS parameters (so it differs from the sender's) and it rejects the sender's ciphertext, while the other two get R1's results too".to_string() } else { "an honest and a tampered copy (one ciphertext bit / one tag bit) of the same message are opened AT THE SAME TIME by two real threads through the same interface (open, open_in_place_detached on contexts of one session; single_shot_open, single_shot_open_in_place_detached) with the same recipient key: under every schedule with at most B preemptions at the in-library scheduling points the honest copy opens to its plaintext and the tampered one fails with OpenError".to_string() };
+        r.rule = if cfg.prop == "C02" { "two (thorough: also three) whole sessions - sender or receiver setup, messages, exports - of different suites, of one suite with other keys, and of suites that share KEM and KDF run on real threads side by side; under every schedule with at most B preemptions at the in-library scheduling points every encapsulated key, ciphertext, plaintext and export is R1's".to_string() } else if !c06 { "three real threads: a receiver whose setup differs from the sender's in ONE component (info || 00, one psk_id bit, the mode, one psk bit), an unrelated sender setup, and a receiver with exactly the sender's parameters run side by side; under every schedule with at most B preemptions at the in-library scheduling points the mismatched receiver's export equals R1's value for ITS parameters (so it differs from the sender's) and it rejects the sender's ciphertext, while the other two get R1's results too".to_string() } else { "an honest and a tampered copy (one ciphertext bit / one tag bit) of the same message are opened AT THE SAME TIME by two real threads through the same interface (open, open_in_place_detached on contexts of one session; single_shot_open, single_shot_open_in_place_detached) with the same recipient key: under every schedule with at most B preemptions at the in-library scheduling points the honest copy opens to its plaintext and the tampered one fails with OpenError".to_string() };
         eprintln!("  part {}: cases {} schedules {} transitions {} violating {} ({:.1}s)", r.name, r.run, r.states, r.transitions, r.violations.len(), r.wall_s);
         if !r.machinery_errors.is_empty() {
             for e in &r.machinery_errors {
